@@ -105,6 +105,7 @@ fn drive_shared(mut it: Iter<'_, Tracked>, sel: &[Obs], script: &[Step]) -> R<()
                     return Err("fold() visited a different sequence".to_string());
                 }
             }
+            Step::Skip(_) | Step::StepBy(_) => {}
             Step::RevCollect => {
                 let v: Vec<&Tracked> = it.clone().rev().collect();
                 if v.len() != hi - lo {
@@ -216,7 +217,7 @@ fn drive_mut(mut it: IterMut<'_, Tracked>, sel: &[Obs], script: &[Step], mut new
                 }
                 return Ok(writes);
             }
-            Step::Fork | Step::Fold => {}
+            Step::Fork | Step::Fold | Step::Skip(_) | Step::StepBy(_) => {}
         }
     }
     len_chk("iterator", it.len(), it.size_hint(), hi - lo)?;
@@ -424,7 +425,7 @@ impl St {
                             let rem: Vec<u32> = before[lo..hi].iter().map(|m| m.0).collect();
                             debug_touches_only("the owning iterator", &rem, || it.debug_string())?;
                         }
-                        Step::Count | Step::Fold | Step::Last | Step::RevCollect => {
+                        Step::Count | Step::Fold | Step::Last | Step::RevCollect | Step::Skip(_) | Step::StepBy(_) => {
                             let v = it.collect_vec();
                             let ids: Vec<u32> = v.iter().map(|t| t.raw_id()).collect();
                             got.extend(v);
